@@ -145,17 +145,20 @@ def setup(ctx):
     install(ctx, laue)
 
 
-TILT_STRATA = ["both0", "chi_only", "wedge_only", "both", "both"]
+TILT_STRATA = ["both0", "chi_only", "wedge_only", "both", "both", "tiny"]
 DIR_STRATA = ["sphere", "sphere", "near_axis", "near_tangent", "axis_plane"]
 
 
 def workload(ctx):
     rng = ctx.rng(1)
+    prev_solve = None
     for i in range(ctx.n(3000, 120000)):
         ts = TILT_STRATA[i % len(TILT_STRATA)]
         ds = DIR_STRATA[(i // len(TILT_STRATA)) % len(DIR_STRATA)]
         chi = 0.0 if ts in ("both0", "wedge_only") else float(rng.uniform(-0.5, 0.5))
         wedge = 0.0 if ts in ("both0", "chi_only") else float(rng.uniform(-0.5, 0.5))
+        if ts == "tiny":
+            chi, wedge = (float(x) for x in rng.choice([-1, 1], 2) * 10 ** rng.uniform(-7, -2, 2))
         twoth = math.radians(float(rng.uniform(0.5, 150)))
         if i % 4 == 3:
             # low-angle reflections: |g| = sin(theta) ~ 1e-2, every intermediate of the quadratic is tiny in absolute terms
@@ -181,6 +184,18 @@ def workload(ctx):
                 f = math.sqrt(max(c * c * (1 + u) / s, 1e-12))
                 d = np.array([d[0] * f, d[1] * f, d[2]])
         d = d / np.linalg.norm(d)
+        if i % 7 == 6 and prev_solve is not None:
+            # histories: the previous reflection with one tilt changed, or the previous tilts with a new reflection
+            if rng.random() < 0.5:
+                d, twoth = np.array(prev_solve["dir"]), prev_solve["twoth"]
+                if rng.random() < 0.5:
+                    chi = prev_solve["chi"]
+                else:
+                    wedge = prev_solve["wedge"]
+            else:
+                chi, wedge = prev_solve["chi"], prev_solve["wedge"]
+            ts, ds = "history", "history"
+        prev_solve = {"dir": d.tolist(), "twoth": twoth, "chi": chi, "wedge": wedge}
         yield "solve", {"dir": d.tolist(), "twoth": twoth, "chi": chi, "wedge": wedge, "tilts": ts, "dirs": ds,
                         "scale": float(10 ** rng.uniform(-3, 3))}
     rng = ctx.rng(2)
